@@ -54,6 +54,43 @@ def bfs_all_supertypes(f, env, action_pred):
     return False
 
 
+def subtyping_recursive(ctx, rid, f, env):
+    """the recursive form of the subtyping test:  this == &t  ||  exists st in t.supertypes . is_assignable_from(*st)
+    - the base case returns true; the loop over the supertypes of the argument returns (true) only when the recursive call on that supertype
+    holds, so that every supertype is tried; after the loop the answer is false."""
+    def rec(t, over):
+        return isinstance(t, tuple) and t[0] == 'mcall' and t[1] == 'ratio::type::is_assignable_from' and len(t) == 4 and t[2] == 'this' and show(t[3]) == over
+    base = any(n.get('k') == 'IfStmt' and show(canon(n['slots']['cond'], env, subst=False)) in ('(== t this)', '(== this t)')
+               and any(r.get('k') == 'ReturnStmt' and show(canon(r['c'][0], env)) == 'true' for r in walk(n['slots']['then']))
+               and not any(a.get('k') in ('CXXForRangeStmt', 'WhileStmt', 'ForStmt', 'IfStmt') for a in f.ancestors(n)) for n in f.nodes())
+    loops = [n for n in f.nodes() if n.get('k') == 'CXXForRangeStmt' and show(canon(n['slots']['range'], env, subst=False)) in ('(. t supertypes)', '(member t supertypes)', 't.supertypes')]
+    if not loops:
+        loops = [n for n in f.nodes() if n.get('k') == 'CXXForRangeStmt' and 'supertypes' in show(canon(n['slots']['range'], env, subst=False)) and ' t' in show(canon(n['slots']['range'], env, subst=False))]
+    if not loops:
+        raise AnalysisBroken('%s: neither the worklist form (a std::queue of types) nor a loop over the supertypes of the argument: the form of the subtyping test is not one this rule can read' % f.id)
+    every = False
+    for l in loops:
+        if any(a.get('k') in ('IfStmt', 'CXXForRangeStmt', 'WhileStmt', 'ForStmt') for a in f.ancestors(l)):
+            continue
+        var = l['slots']['var']
+        vname = env.rename.get(var.get('loc')) or var.get('name')
+        rets = [r for r in walk_nolambda(l['slots']['body']) if r.get('k') == 'ReturnStmt']
+        exits = [r for r in walk_nolambda(l['slots']['body']) if r.get('k') in ('BreakStmt', 'GotoStmt')]
+        good = bool(rets) and not exits
+        for r in rets:
+            guards = [a for a in f.ancestors(r) if a.get('k') == 'IfStmt' and any(x is a for x in walk(l['slots']['body']))]
+            in_then = [a for a in guards if any(x is r for x in walk(a['slots']['then']))]
+            if not (show(canon(r['c'][0], env)) == 'true' and len(guards) == 1 and in_then and rec(canon(guards[0]['slots']['cond'], env, subst=False), vname)):
+                good = False
+        every = every or good
+    tail = f.body['c'][-1] if f.body.get('c') else None
+    last = tail is not None and tail.get('k') == 'ReturnStmt' and show(canon(tail['c'][0], env)) == 'false'
+    ctx.instance(rid, [f.id, 'subtyping'], {'form': 'recursive', 'base_case_this_is_the_argument': base, 'every_supertype_is_tried': every, 'false_after_the_loop': last})
+    if not (base and every and last):
+        ctx.finding(rid, f.id, 'subtyping', 'type::is_assignable_from must return true iff this type is the argument or one of its transitive supertypes '
+                    '(recursive form: base case %s, every supertype of the argument tried %s, false after the loop %s)' % (base, every, last), loc=f.loc)
+
+
 def r1(ctx, fs):
     rid = 'C17.R1'
     ctx.rule(rid, 'breadth-first visit of ALL supertypes (no filter, no early exit) in type::new_instance (instance appended to each), predicate::new_instance (atom appended to each) and '
@@ -83,8 +120,8 @@ def r1(ctx, fs):
     f = fs.fn('ratio::type::is_assignable_from')
     env = LocalEnv(f)
     env.param_roles(['t'])
-    env.local_role('q', lambda n, i: 'std::queue<' in (n.get('t') or ''))
-    ok = bfs_all_supertypes(f, env, lambda body: True) or True
+    if env.local_role('q', lambda n, i: 'std::queue<' in (n.get('t') or ''), optional=True) is None:
+        return subtyping_recursive(ctx, rid, f, env)
     rets = sorted(show(canon(n['c'][0], env)) for n in f.nodes() if n.get('k') == 'ReturnStmt')
     hit = any(n.get('k') == 'IfStmt' and canon(n['slots']['cond'], env, subst=False) == ('==', ) + tuple(sorted((('mcall', 'std::queue<const ratio::type *>::front', 'q'), 'this'), key=repr)) for n in f.nodes())
     ctx.instance(rid, [f.id, 'subtyping'], {'returns': rets, 'compares_each_visited_type_with_this': hit})
